@@ -32,6 +32,12 @@ REG = {
  'C14': ('model_checking', 'TLA+ reference semantics enumerated by TLC; replay with controllable never-ending sources and teardown counters',
          'Pipeline.tla requires the source to be released in the very step in which an operator terminates the stream; TLC enumerates all cut positions for all instances and pairs; the replayer checks the teardown counter of the controllable source right after that step, without emitting anything else.',
          'bounds as C04; operators that block inside Subscribe are covered by the Resub part once built', '6/C14'),
+ 'C07': ('fault_enumeration', 'fault plans enumerated by TLC in the TLA+ pipeline model (Faults) and executed on the real code',
+         'Pipeline.tla carries a fault plan <callback position, invocation index, kind>; TLC enumerates every plan for every catalogue instance and pair together with every input script and prints the expected observation (values before the fault, exactly one Error with the injected cause and the context of the notification being processed, nothing after, source released); the replayer injects the panic at that invocation, with recover() around every harness call and a hang watchdog.',
+         'positions: source subscribe function and value callbacks of operators; faults in the final observer callbacks not enumerated yet; one fault per run', '6/C07'),
+ 'C12': ('model_checking', 'TLA+ pipeline model with re-subscription enumerated by TLC; replay incl. interleaved subscriptions and shared operator values',
+         'Pipeline.tla re-subscribes the same pipeline object after the first subscription closed and requires fresh stage state; TLC enumerates all such behaviours; the replayer additionally steps two subscriptions of one pipeline alternately and applies one operator value to two sources; laziness: the source subscribe counter is compared after construction and after every step.',
+         'bounded: two subscriptions, scripts <= 3-5, chains <= 2; multi-source operators are covered by the OpsMulti part once built', '6/C12'),
 }
 NA_REASON = 'check not built yet (framework under construction); planned, see DESIGN.md section 6'
 
